@@ -39,7 +39,7 @@ Theorem C04_evaluation_does_not_refresh : forall (G : gen) (tc : testcase) (fuel
   match get_row G tc fuel st with
   | GRNone st1 | GRRow _ st1 | GRErr _ st1 =>
       couts (i_ctx st1) = couts (i_ctx st) /\ calt (i_ctx st1) = calt (i_ctx st) /\
-      i_log st1 = i_log st /\ i_outidx st1 = i_outidx st
+      i_log st1 = i_log st /\ i_outidx st1 = i_outidx st /\ i_nout st1 = i_nout st
   | _ => True
   end.
 Proof. exact get_row_preserves. Qed.
